@@ -5,7 +5,7 @@
 set -u
 PATCH=$1; OUT=$2; shift 2
 mkdir -p "$OUT"
-TR=/root/scratch/trial_repo; TV=/root/scratch/trial_verif
+TAG=${TRIAL_TAG:-}; TR=/root/scratch/trial_repo$TAG; TV=/root/scratch/trial_verif$TAG
 git -C /repo worktree remove --force $TR >/dev/null 2>&1; rm -rf $TR
 git -C /repo worktree add --detach $TR HEAD >/dev/null 2>&1 || exit 2
 git -C $TR apply "$PATCH" || { echo "patch does not apply"; exit 2; }
